@@ -125,7 +125,8 @@ type instance struct {
 	offAll     func()
 	offAllName string
 	phases     func(last bool) int
-	maxRounds  int // > 0: the instance can only produce occurrences for this many rounds (later rounds are dropped)
+	maxRounds  int  // > 0: the instance can only produce occurrences for this many rounds (later rounds are dropped)
+	stop       bool // an absence verdict (15 s wait) was issued: do not run further steps of this program
 	// trigger causes the occurrences of (round, phase) and says what it knows about them.
 	trigger func(round, phase int, last bool) (map[string][NE]occSpec, error)
 	close   func()
@@ -370,24 +371,60 @@ func runProgram(b *bctx, in *instance, p *bprog) {
 }
 
 // resolveN: the number of occurrences of (f, e) in this step. Known exactly from the
-// trigger, or — when the harness cannot count them itself — the n >= 0 for which some
-// model state predicts the observation (the witness handler makes n unique).
+// trigger, or — when the harness cannot count them itself — the smallest n (not below an
+// independently established lower bound) for which some model state predicts the
+// observation (the witness handler makes n unique).
 func resolveN(m *model, e int, sp occSpec, got [NH]int) (n int, ok bool) {
 	if sp.exact >= 0 {
 		return sp.exact, m.matches(e, sp.exact, got)
 	}
-	max := 0
-	for _, g := range got {
-		if g > max {
-			max = g
-		}
-	}
-	for n := 0; n <= max; n++ {
+	lo, hi := nRange(sp, got)
+	for n := lo; n <= hi; n++ {
 		if m.matches(e, n, got) {
 			return n, true
 		}
 	}
 	return got[W], false
+}
+
+func nRange(sp occSpec, got [NH]int) (lo, hi int) {
+	if sp.exact >= 0 {
+		return sp.exact, sp.exact
+	}
+	for _, g := range got {
+		if g > hi {
+			hi = g
+		}
+	}
+	if sp.known {
+		lo = sp.min
+		if hi < lo {
+			hi = lo
+		}
+	}
+	return
+}
+
+// couldGrow: can the observation still become one that the model predicts, by more
+// handler runs only (counts never decrease)? If not, some handler already ran too often.
+func couldGrow(m *model, e int, sp occSpec, got [NH]int) bool {
+	lo, hi := nRange(sp, got)
+	for n := lo; n <= hi; n++ {
+		for i := range m.states {
+			p := predict(&m.states[i], e, n)
+			fits := true
+			for h := 0; h < NH; h++ {
+				if got[h] > p[h] {
+					fits = false
+					break
+				}
+			}
+			if fits {
+				return true
+			}
+		}
+	}
+	return false
 }
 
 // judge waits until the observation of this step is complete and compares it with the
@@ -452,19 +489,15 @@ func judge(b *bctx, in *instance, p *bprog, step int, spec map[string][NE]occSpe
 				}
 				// which way does it deviate?
 				kind := "missing"
-				certain := false // excess that no number of occurrences can explain
-				_, hi := f.m.bounds(e, n)
+				certain := false // an excess that is independent of the number of occurrences
+				if !couldGrow(f.m, e, sp, got) {
+					kind = "excess"
+					certain = solid
+				}
 				for h := 0; h < NHB; h++ {
-					if solid && got[h] > hi[h] {
-						kind, certain = "excess", true
-					}
 					if cp, capped := f.m.absoluteCap(e, h); capped && got[h] > cp {
 						kind, certain = "excess", true
 					}
-				}
-				if !ok && !solid && kind == "missing" {
-					// unknown n and no n explains the observation: some handler is ahead of the others
-					kind = "excess"
 				}
 				switch {
 				case kind == "excess" && ((certain && stable >= 500*time.Millisecond) || stable >= 2*time.Second || expired):
@@ -475,6 +508,7 @@ func judge(b *bctx, in *instance, p *bprog, step int, spec map[string][NE]occSpe
 						f.dead = true
 					} else {
 						report(f, e, n, got, kind, solid)
+						in.stop = true
 					}
 				default:
 					pending = true
@@ -488,6 +522,9 @@ func judge(b *bctx, in *instance, p *bprog, step int, spec map[string][NE]occSpe
 			}
 		}
 		if alive == 0 {
+			return false
+		}
+		if !pending && in.stop {
 			return false
 		}
 		if !pending && stable >= settle {
@@ -556,7 +593,10 @@ func classifyB(in *instance, f *family, e int, sp occSpec, got [NH]int, kind str
 		}
 		return false
 	}
-	n, _ := resolveN(f.m, e, sp, got)
+	n, okN := resolveN(f.m, e, sp, got)
+	if !okN && sp.exact < 0 && sp.known && n < sp.min {
+		n = sp.min
+	}
 	lo, hi := f.m.bounds(e, n)
 	detail := fmt.Sprintf("ran=%v; for %d occurrence(s) the model allows lo=%v hi=%v", got[:NHB], n, lo[:NHB], hi[:NHB])
 	withArgs := func(o op) bool { return o.K == "Off" && len(o.H) > 0 }
@@ -602,11 +642,17 @@ func classifyB(in *instance, f *family, e int, sp occSpec, got [NH]int, kind str
 			return name(o)
 		}
 	}
-	// (3) not a plain no-op: attribute to the last removal call with handlers, if any
-	if o, ok := lastOf(withArgs); ok {
+	// (3) not a plain no-op: attribute to the last removal call, if any
+	if o, ok := lastOf(func(o op) bool { return o.isOffish() }); ok {
 		eff, _, _ := effect(lo, hi, got, o.H)
 		if eff == "joint-mismatch" {
-			eff = "duplicate-partially-removed"
+			eff = "counts-inconsistent"
+		}
+		switch {
+		case offAll(o):
+			return "offall", map[string]any{"family": in.offAllName, "registry": f.name, "effect": eff}, fmt.Sprintf("after %s(): %s; %s", in.offAllName, eff, detail)
+		case noArgs(o):
+			return "off-none", map[string]any{"family": f.mOff, "effect": eff}, fmt.Sprintf("after %s with no handler: %s; %s", f.mOff, eff, detail)
 		}
 		sub := "off-single"
 		if len(o.H) > 1 {
@@ -976,7 +1022,11 @@ func newManagerLiveInstance() (*instance, error) {
 		cfg := &sio.ServerConfig{}
 		cfg.EIO.PingInterval = time.Second
 		cfg.EIO.PingTimeout = 20 * time.Second
-		return rig.NewServer(cfg, addr)
+		srv, err := rig.NewServer(cfg, addr)
+		if err == nil {
+			srv.IO.Of("/") // the root namespace exists only once it has been asked for
+		}
+		return srv, err
 	}
 	srv, err := mk("")
 	if err != nil {
@@ -1054,7 +1104,8 @@ func partB(run *vk.Run) {
 		mk     func() (*instance, error)
 		random int
 	}
-	makers := []mkInst{
+	makers := []mkInst{ // slowest first
+		{"manager-live-server", newManagerLiveInstance, run.Pick(3, 20)},
 		{"namespace", func() (*instance, error) { return newNamespaceInstance(shared) }, run.Pick(6, 60)},
 		{"server", newServerInstance, run.Pick(4, 40)},
 		{"server-socket", func() (*instance, error) { return newServerSocketInstance(shared) }, run.Pick(6, 60)},
@@ -1062,7 +1113,6 @@ func partB(run *vk.Run) {
 		{"client-socket-connect-error-packet", func() (*instance, error) { return newConnectErrorInstance(shared) }, run.Pick(3, 30)},
 		{"client-socket-connect-error-dial", newConnectErrorDialInstance, run.Pick(3, 30)},
 		{"manager-no-server", newManagerDeadInstance, run.Pick(3, 30)},
-		{"manager-live-server", newManagerLiveInstance, run.Pick(3, 20)},
 	}
 	type job struct {
 		mk mkInst
@@ -1083,12 +1133,12 @@ func partB(run *vk.Run) {
 				flat = append(flat, ro...)
 			}
 			run.Distinct("B " + mk.typ + "/random " + signature(flat, fmt.Sprintf("rounds=%d", len(p.rounds))))
-			if k == 0 {
+			if k == 0 && (mk.typ == "namespace" || mk.typ == "server-socket" || mk.typ == "manager-live-server") {
 				run.Sample(map[string]any{"part": "B", "instance": mk.typ, "program": p.describe()})
 			}
 		}
 	}
-	workers := run.Pick(12, 16)
+	workers := 32 // the workers mostly wait (occurrences, settle windows, absence watchdogs)
 	ch := make(chan job)
 	var wg sync.WaitGroup
 	for w := 0; w < workers; w++ {
